@@ -3,7 +3,8 @@
    newest index in PSet (63 positions incl. both ends and the middle) x every populated count 0..999 (63,000 shapes, ~1,000 probes for
    the sparse ones).  The full 999,000-shape space is covered by the real code + Trace_Search. *)
 EXTENDS Search
-PSet == {q \in 0..998 : q % 37 \in {0, 1}} \cup (497..501) \cup (995..998)
+CONSTANT Slice      \* TRUE: 63 newest positions (quick); FALSE: all 999 (thorough: 999,000 shapes, 19.7 M states)
+PSet == IF Slice THEN {q \in 0..998 : q % 37 \in {0, 1}} \cup (497..501) \cup (995..998) ELSE 0..998
 Init999 == /\ n = 999 /\ p \in PSet /\ k \in 0..999
            /\ pc = "first" /\ first = NONE /\ low = 0 /\ high = 0
            /\ nearest = NoIdx /\ nearestVal = NONE /\ queue = <<>> /\ probes = 0 /\ result = NoIdx /\ hist = <<>>
